@@ -74,7 +74,12 @@ template <typename CharT>
             break;
         }
     }
-    return static_cast<int>(*lhs) - static_cast<int>(*rhs);
+    if constexpr (sizeof(CharT) == 1) {
+        // The sign is that of the difference of the characters interpreted as unsigned char.
+        return static_cast<int>(static_cast<unsigned char>(*lhs)) - static_cast<int>(static_cast<unsigned char>(*rhs));
+    } else {
+        return static_cast<int>(*lhs) - static_cast<int>(*rhs);
+    }
 }
 
 template <typename CharT, typename SizeT>
@@ -88,7 +93,11 @@ template <typename CharT, typename SizeT>
         u1 = static_cast<CharT>(*lhs++);
         u2 = static_cast<CharT>(*rhs++);
         if (u1 != u2) {
-            return static_cast<int>(u1 - u2);
+            if constexpr (sizeof(CharT) == 1) {
+                return static_cast<int>(static_cast<unsigned char>(u1)) - static_cast<int>(static_cast<unsigned char>(u2));
+            } else {
+                return static_cast<int>(u1 - u2);
+            }
         }
         if (u1 == CharT(0)) {
             return 0;
